@@ -272,4 +272,13 @@ func init() {
 			return 110 * time.Second
 		},
 	})
+	h.Checks["C05"] = func(tier string) int {
+		c := h.SeqChecks["C05"]
+		rep := h.NewReport("C05", tier, c.Level)
+		rep.Rule = c.Rule + "; plus 4 scenarios per store in which a collection tick runs while a push is in flight (manifest push over unprotected blobs without a grace period, upload and manifest push with a grace period, referrer push, re-tag racing with the delete of the last tag), all interleavings up to the preemption bound: linearizable, and an acknowledged tagged image is completely pullable at quiescence"
+		rep.Assume = c.Assume
+		h.RunSeqInto(rep, "C05", tier, time.Time{})
+		h.RunSchedInto(rep, "C05sched", tier)
+		return rep.Emit()
+	}
 }
